@@ -20,6 +20,14 @@ fn ctx_variants(ctx: &mut Ctx, c: &[u8]) -> Vec<(&'static str, Vec<u8>)> {
         let i = ctx.prng.gen_range(0..x.len());
         x[i] ^= 1 << ctx.prng.gen_range(0..8);
         v.push(("context-one-byte", x));
+        // the two ends: a context read in blocks, or only up to some length, differs there
+        let mut x = c.to_vec();
+        let l = x.len() - 1;
+        x[l] ^= 1 << ctx.prng.gen_range(0..8);
+        v.push(("context-last-byte", x));
+        let mut x = c.to_vec();
+        x[0] ^= 1 << ctx.prng.gen_range(0..8);
+        v.push(("context-first-byte", x));
         let mut x = c.to_vec();
         x.pop();
         v.push(("context-truncated", x));
@@ -36,7 +44,8 @@ fn establish_case(ctx: &mut Ctx, idx: usize, w: &World, w2: &World) {
     if !ctx.begin_case(idx, "establish-substitution") {
         return;
     }
-    let a = Agreed::random(ctx);
+    let mut a = Agreed::random(ctx);
+    if (idx / 4) % 4 == 1 { a = a.with_long_context(ctx); }
     let run = match establish_customer(ctx, w, &a) { Some(r) => r, None => return };
     if initialize_check(ctx, w, &a, &run.d, Some(true), "honest").is_none() { return; }
     let _ = initialize_check(ctx, w2, &a, &run.d, Some(false), "other-merchant-key");
@@ -71,7 +80,8 @@ fn pay_case(ctx: &mut Ctx, idx: usize, w: &World, w2: &World, w_rp: &World, w_re
     if !ctx.begin_case(idx, "pay-substitution") {
         return;
     }
-    let a = Agreed::random(ctx);
+    let mut a = Agreed::random(ctx);
+    if (idx / 4) % 4 == 2 { a = a.with_long_context(ctx); }
     let mut s = match open_session(ctx, w, &a) { Some(s) => s, None => return };
     if ctx.prng.gen_range(0..2) == 0 {
         let amt = valid_amount(ctx, s.cb, s.mb);
